@@ -34,9 +34,13 @@ def gen_contract(rnd, nloc=None):
     L.append("    else:")
     for i in mod[::-1][:max(1, len(mod) // 2)]:
         L.append(f"        v{i} = unsafe_mul(v{i}, 3)")
+    # a value defined before the loop that is both the initial value of a loop-carried variable and used in the body
+    inv = rnd.randrange(nloc)
+    L.append(f"    w: uint256 = v{inv}")
     # loop with carried variables
-    car = rnd.sample(range(nloc), min(nloc, rnd.randrange(3, 10)))
+    car = rnd.sample([i for i in range(nloc) if i != inv], min(nloc - 1, rnd.randrange(3, 10)))
     L.append("    for i: uint256 in range(3):")
+    L.append(f"        w = unsafe_add(w, v{inv})")
     for j, i in enumerate(car):
         L.append(f"        v{i} = unsafe_add(v{i}, v{car[(j + 1) % len(car)]}) ^ i")
     L.append("        if v0 & 7 == 3:")
@@ -47,7 +51,7 @@ def gen_contract(rnd, nloc=None):
              "    q: (" + ", ".join(["uint256"] * nret) + f") = self.many({call_args})")
     order = list(range(nloc))
     rnd.shuffle(order)
-    acc = " ^ ".join(f"unsafe_mul(v{i}, {k + 1})" for k, i in enumerate(order))
+    acc = "w ^ " + " ^ ".join(f"unsafe_mul(v{i}, {k + 1})" for k, i in enumerate(order))
     L.append(f"    return {acc} ^ " + " ^ ".join(f"q[{i}]" for i in range(nret)))
     return "\n".join(L) + "\n"
 
@@ -126,3 +130,26 @@ def join_disagreements(records):
                 bad.append({"function": key[0], "block": key[1], "what": "live stack heights differ on incoming edges",
                             "edges": [(x[2], x[3]) for x in rs]})
     return n, bad
+
+
+# fixed programs with historically problematic shapes (source, selector signature, argument lists)
+FIXED = [
+    ("""
+s1: uint256
+s2: int256
+
+@external
+def f1(a1: uint256) -> uint256:
+    self.s1 = a1
+    for v0: uint8 in range(2):
+        self.s1 += a1
+    return self.s1
+
+@external
+def f2(a1: int256) -> int256:
+    self.s2 = a1
+    for v0: uint8 in range(3):
+        self.s2 = (-self.s2) - a1
+    return self.s2
+""", [("f1(uint256)", [5]), ("f1(uint256)", [0]), ("f2(int256)", [7]), ("f2(int256)", [2**256 - 3])]),
+]
